@@ -21,13 +21,18 @@ CLAIM = dict(
           "run-time list of either; list of std::array<int,K>; compile-time-constant parts incl. negative ones), length AND every "
           "source index; extents around 2^24, 2^31, 2^32, 2^40 and 2^62-1 with int, int64_t and size_t typed bounds and steps up to 2^61 "
           "(index math only: length, first two and last source index); seeded 1..3-axis combinations with integers and an ellipsis in every "
-          "position (also standing for no axis) at index and at view level, both encodings; view::slice with a single slice."),
+          "position (also standing for no axis) at index and at view level, both encodings, every part as run-time value / compile-time "
+          "constant / Last / None crossed with four kinds of source shape and of source array (shape, dim(), size(), every element); "
+          "view::slice with a single slice."),
     ref="5.5", technique="Coq proof for all inputs of the argument types + differential correspondence with the extracted model", extra="")
 RULE = ("stream box: every n in 1..6, start/stop in [-(n+2), n+2] or None, step in {-3..-1,1..3}, None or omitted (2-part slice) "
         "= 12 type patterns, through 4 encodings (var/tup/dyn/arr; quick tier rotates the encoding per case but covers every "
         "(pattern, encoding) pair, thorough runs all) + a table of 48 compile-time-constant slices (size_t constants) x n in 1..6; stream edge: extents near 2^24 and 2^31 with bounds near 0, +-n, index math only; "
-        "stream multi: seeded 1..3-axis type combinations with integers and an ellipsis in every position (quick 120 type "
-        "combinations, thorough 400) x value draws, index level (shape + every source multi-index) and view level (shape + every "
+        "stream multi: seeded 1..3-axis type combinations (quick 124, thorough 400) fixing the TYPE of every part - integer index as "
+        "run-time int / size_t / k_ct / ct_v<k> / Last, range fields as run-time int / constant / None / Last mixed in one tuple, an "
+        "ellipsis in every position - crossed with the kind of the source shape (std::vector, std::array, static_vector, tuple of "
+        "constants) and of the source array (dynamic, fixed-dim, raw C array, fixed_ndarray); shape, dim(), size() and every element;"
+        " formerly: (quick 120 type combinations, thorough 400) x value draws, index level (shape + every source multi-index) and view level (shape + every "
         "element); stream single: view::slice(a, one slice) on 1-d arrays. "
         "non-trivial = a case with at least one integer bound or step; distinct = distinct case lines")
 THEOREM_STATUS = {"proved": ["C05_slice_python", "C05_normalize_is_slice_indices", "C05_index_in_bounds", "C05_multi_axis",
@@ -157,15 +162,40 @@ def gen_cases(rng, tier):
             if t == "e": toks.append("S:e"); ax += nf
             else: toks.append(draw_part(t, shape[ax])); ax += 1
         return "L:%s %s" % (",".join(map(str, shape)), " ".join(toks))
+    # typed-tuple encodings: the TYPE of every part (run-time int / size_t, constant, Last, None), the kind of the source shape
+    # (index level) and of the source array (view level) are fixed by the generated combination; constants keep their value
+    def draw_typed(t, n):
+        if t[0] == "e": return "S:e"
+        if t[0] == "i":
+            if t[2] is not None: return "S:i,%d" % t[2]
+            if t[1] == "rtu": return "S:i,%d" % rng.randint(0, n - 1)
+            v = rng.randint(-n, n - 1) if rng.random() < 0.95 else rng.choice([n, -n - 1])
+            return "S:i,%d" % v
+        toks = draw_part("iii", n).split(",")[1:]            # joint draw of (a, b, c), then the fixed fields override
+        for j, f in enumerate(t[1]):
+            if f[0] in ("N", "O"): toks[j] = f[0]
+            elif f[0] == "last": toks[j] = "-1"
+            elif f[0] in ("ct", "sct"): toks[j] = str(f[1])
+        return "S:r," + ",".join(toks)
     combos = gen_c05.static_combos(tier)
     nt = gen_c05.n_tus(tier)
     ndraw = 6 if tier == "quick" else 12
-    for cid, (dim, parts) in enumerate(combos):
+    for cid, cmb in enumerate(combos):
         key = mkey(cid % nt)
+        dim, parts = cmb["dim"], cmb["parts"]
+        nf = dim - sum(1 for x in parts if x[0] != "e")
+        def body_for(shape):
+            toks = []; ax = 0
+            for t in parts:
+                if t[0] == "e": toks.append("S:e"); ax += nf
+                else: toks.append(draw_typed(t, shape[ax])); ax += 1
+            return "L:%s %s" % (",".join(map(str, shape)), " ".join(toks))
         for d in range(ndraw):
-            body = parts_line(draw_shape(dim), parts)
-            add("multi", "mx S:%s S:c%d %s" % ("var" if d % 2 == 0 else "tup", cid, body), key)
-            add("multi", "vw S:%s S:c%d %s" % ("tup" if (d % 2 == 0 and len(parts) >= 2) else "var", cid, body), key)
+            free = [rng.randint(m, max(m, 5)) for m in cmb["minext"]]
+            shp_i = list(cmb["shape"]) if cmb["skind"] == "cst" else free           # constant shapes are part of the combination
+            shp_v = list(cmb["shape"]) if cmb["akind"] in ("raw", "fixed") else free
+            add("multi", "mx S:%s S:c%d %s" % ("var" if d % 2 == 0 else "tup", cid, body_for(shp_i)), key)
+            add("multi", "vw S:%s S:c%d %s" % ("tup" if d % 2 == 0 else "var", cid, body_for(shp_v)), key)
     # run-time list encoding: any sequence of integers / ellipsis / ranges of ONE tuple pattern (+ all-int 3-part ranges as arrays)
     nseq = 40 if tier == "quick" else 150
     for pat in gen_c05.PATS:
